@@ -77,10 +77,18 @@ type step struct {
 	Buf    uint32   `json:"buf,omitempty"`  // fd_readdir buffer length
 }
 
+// seedEnt is content that exists in mount 0 before the guest starts.
+type seedEnt struct {
+	Path string `json:"path"`
+	Dir  bool   `json:"dir,omitempty"`
+	Data string `json:"data,omitempty"`
+}
+
 type histCase struct {
-	Kind  string `json:"kind"`
-	NPre  int    `json:"npre"`
-	Steps []step `json:"steps"`
+	Kind  string    `json:"kind"`
+	NPre  int       `json:"npre"`
+	Seed  []seedEnt `json:"seed,omitempty"`
+	Steps []step    `json:"steps"`
 }
 
 var caseCounter atomic.Int64
@@ -101,7 +109,7 @@ type world struct {
 	secondWord    bool
 }
 
-func newWorld(npre int) (*world, error) {
+func newWorld(npre int, seed ...seedEnt) (*world, error) {
 	w := &world{ctx: context.Background(), m: fsmodel.New(npre)}
 	w.base = filepath.Join(evid.WorkDir(), fmt.Sprintf("case-%d", caseCounter.Add(1)))
 	os.RemoveAll(w.base)
@@ -117,6 +125,21 @@ func newWorld(npre int) (*world, error) {
 			guest = fmt.Sprintf("/m%d", i)
 		}
 		fsc = fsc.WithDirMount(d, guest)
+	}
+	for _, e := range seed {
+		if !w.m.Seed(0, e.Path, e.Dir, []byte(e.Data)) {
+			continue
+		}
+		hp := filepath.Join(w.dirs[0], filepath.FromSlash(e.Path))
+		var err error
+		if e.Dir {
+			err = os.Mkdir(hp, 0o755)
+		} else {
+			err = os.WriteFile(hp, []byte(e.Data), 0o644)
+		}
+		if err != nil {
+			return nil, err
+		}
 	}
 	w.rt = wazero.NewRuntimeWithConfig(w.ctx, wazero.NewRuntimeConfigInterpreter())
 	p, err := wasiproxy.New(w.ctx, w.rt, wazero.NewModuleConfig().WithFSConfig(fsc), 1, -1)
@@ -321,6 +344,11 @@ func (w *world) apply(s step) string {
 			}
 		}
 	}
+	if strings.HasPrefix(s.Op, "path_") {
+		if d := m.FDs[s.FD]; d != nil && d.Ino != nil && d.Ino.Dir && !d.Preopen {
+			evid.Label("path-call-relative-to-opened-directory", 1)
+		}
+	}
 	switch s.Op {
 	case "path_open":
 		o, oflags, fdflags, dirflags, rights := parseOpen(s.Flags)
@@ -330,13 +358,14 @@ func (w *world) apply(s step) string {
 		if msg != "" {
 			return msg
 		}
+		before := m.SortedFDs()
 		exp, wantFD := m.PathOpen(s.FD, s.Path, o)
 		okc, msg := verdict(s, exp, errno)
 		if msg != "" || !okc {
 			return msg
 		}
 		if got := int32(w.u32(memRes)); got != wantFD {
-			return fmt.Sprintf("%s returned descriptor %d, lowest free descriptor is %d (open: %v)", fmtStep(s), got, wantFD, m.SortedFDs())
+			return fmt.Sprintf("%s returned descriptor %d, the lowest free descriptor is %d (open before the call: %v)", fmtStep(s), got, wantFD, before)
 		}
 		if wantFD >= 64 {
 			w.secondWord = true
@@ -626,8 +655,10 @@ var names = []string{"a", "b", "c", "d"}
 // are shortened to a few bits), so frequent choices sit at the low end and rare ones at the
 // high end of every range below.
 var openCombos = []string{
-	"rwc", "rw", "r", "wc", "rd", "rwt", "rwa", "w", "rwcx", "rwca", "wa", "wt", "rwct", "wcx", "wct",
+	"rwc", "rd", "rw", "r", "wc", "rd", "rwt", "rwa", "w", "rwcx", "rwca", "wa", "wt", "rwct", "wcx", "wct",
 	"wca", "wcat", "rwcxt", "rwcxa", "r", "rw", "rd",
+	// read-only together with create/truncate/append: narrowed away (i), see genStep
+	"rc", "rt", "ra",
 }
 
 var opCounts = []struct {
@@ -726,7 +757,7 @@ func (w *world) pickDirFD(t *rapid.T, c fdClasses) int32 {
 		return rapid.SampledFrom(c.closed).Draw(t, "closedfd")
 	case r == 28 && len(c.files) > 0:
 		return rapid.SampledFrom(c.files).Draw(t, "filefd")
-	case r >= 14:
+	case r >= 6:
 		// any directory descriptor, opened ones first
 		var ds []int32
 		for i := len(c.dirs) - 1; i >= 0; i-- {
@@ -801,7 +832,40 @@ func (w *world) genPath(t *rapid.T, dirfd int32, want string, allowDot bool) str
 	for i := 0; i < n; i++ {
 		cs = append(cs, name())
 	}
+	if rapid.IntRange(0, 3).Draw(t, "slash") == 3 {
+		// narrowing (iv): no trailing slashes (and no symlinks: no generated call creates one)
+		evid.Label("narrow-iv-trailing-slash", 1)
+	}
 	return strings.Join(cs, "/")
+}
+
+// genSeed draws a small initial tree for mount 0 (0-7 entries, directories first so that
+// nested names find their parents).
+func genSeed(t *rapid.T) []seedEnt {
+	n := rapid.IntRange(0, 7).Draw(t, "nseed")
+	var out []seedEnt
+	var dirs []string
+	taken := map[string]bool{}
+	for i := 0; i < n; i++ {
+		p := rapid.SampledFrom(names).Draw(t, "seedname")
+		if len(dirs) > 0 && rapid.Bool().Draw(t, "nested") {
+			d := rapid.SampledFrom(dirs).Draw(t, "seeddir")
+			if strings.Count(d, "/") < 1 {
+				p = d + "/" + p
+			}
+		}
+		if taken[p] {
+			continue
+		}
+		taken[p] = true
+		if rapid.IntRange(0, 2).Draw(t, "seedkind") == 0 {
+			out = append(out, seedEnt{Path: p, Data: rapid.StringOfN(rapid.RuneFrom([]rune("stuv")), 0, 12, -1).Draw(t, "seeddata")})
+		} else {
+			out = append(out, seedEnt{Path: p, Dir: true})
+			dirs = append(dirs, p)
+		}
+	}
+	return out
 }
 
 func genData(t *rapid.T) []string {
@@ -847,6 +911,12 @@ func (w *world) genStep(t *rapid.T) step {
 	case "path_open":
 		fd := w.pickDirFD(t, c)
 		flags := rapid.SampledFrom(openCombos).Draw(t, "flags")
+		if !strings.Contains(flags, "w") && strings.ContainsAny(flags, "cta") {
+			// narrowing (i): create/truncate/append are requested only together with the
+			// write right (the read-only + create corner belongs to C17)
+			evid.Label("narrow-i-readonly-with-create-trunc-append", 1)
+			flags = "w" + flags
+		}
 		want := "file"
 		switch {
 		case strings.Contains(flags, "d"):
@@ -986,6 +1056,9 @@ var (
 // renumberSelfBroken probes once whether the known defect (fd_renumber onto itself closes
 // the file) is present on the tree under test; if so the generator leaves that class out.
 func renumberSelfBroken() bool {
+	if os.Getenv("C16_NO_EXCLUDE") != "" { // sensitivity runs only: let the search meet the finding
+		return false
+	}
 	rsOnce.Do(func() {
 		rsMsg = runHistory(renumberSelfCase)
 		rsBroken = rsMsg != ""
@@ -1023,6 +1096,9 @@ var (
 )
 
 func renameSameMissingBroken() bool {
+	if os.Getenv("C16_NO_EXCLUDE") != "" {
+		return false
+	}
 	rmOnce.Do(func() {
 		rmMsg = runHistory(renameSameMissingCase)
 		rmBroken = rmMsg != ""
@@ -1049,7 +1125,7 @@ func TestRenameSameMissing(t *testing.T) {
 
 // runHistory executes a recorded history without rapid.
 func runHistory(c histCase) string {
-	w, err := newWorld(c.NPre)
+	w, err := newWorld(c.NPre, c.Seed...)
 	if err != nil {
 		return "harness: " + err.Error()
 	}
@@ -1069,13 +1145,14 @@ func runHistory(c histCase) string {
 
 func runHistoryProp(t *rapid.T) {
 	npre := rapid.SampledFrom([]int{1, 1, 1, 2}).Draw(t, "npre")
-	w, err := newWorld(npre)
+	seed := genSeed(t)
+	w, err := newWorld(npre, seed...)
 	if err != nil {
 		t.Fatalf("harness: %v", err)
 	}
 	defer w.close()
 	n := rapid.IntRange(5, 40).Draw(t, "nsteps")
-	cs := func() histCase { return histCase{Kind: "history", NPre: npre, Steps: w.steps} }
+	cs := func() histCase { return histCase{Kind: "history", NPre: npre, Seed: seed, Steps: w.steps} }
 	for k := 0; k < n; k++ {
 		s := w.genStep(t)
 		msg := w.apply(s)
@@ -1111,8 +1188,8 @@ func runHistoryProp(t *rapid.T) {
 	if npre == 2 {
 		lbl = append(lbl, "hist-two-preopens")
 	}
-	b, _ := json.Marshal(w.steps)
-	evid.Case(evid.Hash64("history", npre, string(b)), nt, lbl...)
+	b, _ := json.Marshal(cs())
+	evid.Case(evid.Hash64("history", string(b)), nt, lbl...)
 	if nt {
 		evid.Sample("history", 2, cs())
 	}
